@@ -963,44 +963,32 @@ func declItems(f *gfile) (imports, decls []gitem) {
 	return
 }
 
-// expansion writes host with the declarations of `from` in it: all imports first (a template file
-// takes imports only at its beginning; duplicates dropped), then from's declarations, then the rest
-// of host. skip is the index of the item of host that is replaced (-1: none, for extends).
+// emptyLib is the path of an empty file of the given format: what the import that an expansion replaces
+// is pointed to (see expansion). Callers add it to the file set with withEmptyLib.
+func emptyLib(format int) string { return "zz/zzempty" + fmtExt[format] }
+
+func withEmptyLib(fs scriggo.Files, format int) scriggo.Files {
+	fs[emptyLib(format)] = []byte{}
+	return fs
+}
+
+// expansion writes host with the declarations of `from` in it. skip is the index of the item of host
+// that is replaced (-1: none, for extends).
+//
+// The prologue of host — everything up to its last extends/import — keeps its layout token for token:
+// a template file takes imports only at its beginning, so the declarations cannot stand where the
+// replaced import stood; that import is pointed to an empty file of the same format instead (it declares
+// nothing), and from's imports (duplicates dropped) and declarations are written right behind host's
+// last import, before the text that followed it. Nothing but statements is inserted, and no text of host
+// is moved: the lines of host begin as they did. (The text pieces between the imports used to be joined
+// behind the declarations: " \n " + "\n" + "  " + "  " is a blank line and a line indented by four spaces —
+// in a Markdown file an indented code block, where a macro declaration is a syntax error. That was an
+// artefact of the twin, hidden while every non-comparable expansion was attributed to the finding
+// macro-format-context-after-tag.)
 func expansion(host *gfile, skip int, from *gfile, newPath string) *gfile {
 	out := &gfile{path: newPath, format: host.format, role: "main"}
 	seen := map[string]bool{}
-	addImport := func(it gitem, base string) {
-		abs := absRef(base, it.ref)
-		if seen[abs] {
-			return
-		}
-		seen[abs] = true
-		it.ref = abs
-		out.items = append(out.items, it)
-	}
-	for _, it := range host.items {
-		if it.kind == 'X' { // extends stays first
-			it.ref = absRef(host.path, it.ref)
-			out.items = append(out.items, it)
-		}
-	}
-	for i, it := range host.items {
-		if it.kind == 'I' && i != skip {
-			addImport(it, host.path)
-		}
-	}
-	imps, decls := declItems(from)
-	// from has package scope: written into a sequentially scoped file its declarations go in
-	// dependency order (callees first)
-	sort.SliceStable(decls, func(i, j int) bool { return decls[i].rank < decls[j].rank })
-	for _, it := range imps {
-		addImport(it, from.path)
-	}
-	out.items = append(out.items, decls...)
-	for i, it := range host.items {
-		if it.kind == 'I' || it.kind == 'X' || i == skip {
-			continue
-		}
+	fix := func(it gitem) gitem {
 		if it.kind == 'A' && it.a.kind == 'R' {
 			it.a.ref = absRef(host.path, it.a.ref)
 		}
@@ -1014,7 +1002,48 @@ func expansion(host *gfile, skip int, from *gfile, newPath string) *gfile {
 			}
 			it.body = body
 		}
+		return it
+	}
+	last := -1
+	for i, it := range host.items {
+		if it.kind == 'I' || it.kind == 'X' {
+			last = i
+		}
+	}
+	for i := 0; i <= last; i++ {
+		it := host.items[i]
+		switch {
+		case it.kind == 'X':
+			it.ref = absRef(host.path, it.ref)
+		case it.kind == 'I' && i == skip:
+			it.ref = "/" + emptyLib(from.format)
+		case it.kind == 'I':
+			it.ref = absRef(host.path, it.ref)
+			seen[it.ref] = true
+		default:
+			it = fix(it)
+		}
 		out.items = append(out.items, it)
+	}
+	imps, decls := declItems(from)
+	// from has package scope: written into a sequentially scoped file its declarations go in
+	// dependency order (callees first)
+	sort.SliceStable(decls, func(i, j int) bool { return decls[i].rank < decls[j].rank })
+	for _, it := range imps {
+		abs := absRef(from.path, it.ref)
+		if seen[abs] {
+			continue
+		}
+		seen[abs] = true
+		it.ref = abs
+		out.items = append(out.items, it)
+	}
+	out.items = append(out.items, decls...)
+	for i := last + 1; i < len(host.items); i++ {
+		if i == skip {
+			continue
+		}
+		out.items = append(out.items, fix(host.items[i]))
 	}
 	return out
 }
@@ -1421,14 +1450,14 @@ func checkSet(c *hx.Ctx, m *measurer, set *gset, si int) error {
 		subPath := path.Join(path.Dir(layout.path), "zzsub"+fmtExt[layout.format])
 		subFile := expansion(layout, -1, f, subPath)
 		sub := subFile.source()
-		fs := set.files_()
+		fs := withEmptyLib(set.files_(), f.format)
 		fs[subPath] = []byte(sub)
 		a := runEngine(fs, f.path, nil, true, nil)
 		b, same := sameContexts(fs, subFile)
 		res.Count("", false)
 		res.Hist("extends-" + fmtName[f.format] + "-on-" + fmtName[layout.format])
 		if !same {
-			lexerContextMoved(c, "extends "+f.path, set.human(f.path)+" against "+subPath+"="+strconv.Quote(sub))
+			lexerContextMoved(c, "extends "+f.path, set.human(f.path)+" against "+subPath+"="+strconv.Quote(sub)+" (twin: "+b.line()+")")
 			continue
 		}
 		if a.line() != b.line() {
@@ -1449,14 +1478,14 @@ func checkSet(c *hx.Ctx, m *measurer, set *gset, si int) error {
 			lib := set.files[it.target]
 			cp := expansion(f, i, lib, path.Join(path.Dir(f.path), "zzinl"+fmtExt[f.format]))
 			src := cp.source()
-			fs := set.files_()
+			fs := withEmptyLib(set.files_(), lib.format)
 			fs[cp.path] = []byte(src)
 			a := runEngine(fs, f.path, nil, true, nil)
 			bb, same := sameContexts(fs, cp)
 			res.Count("", false)
 			res.Hist("import-inlined")
 			if !same {
-				lexerContextMoved(c, "import "+lib.path+" in "+f.path, set.human(f.path)+" against "+cp.path+"="+strconv.Quote(src))
+				lexerContextMoved(c, "import "+lib.path+" in "+f.path, set.human(f.path)+" against "+cp.path+"="+strconv.Quote(src)+" (twin: "+bb.line()+")")
 				continue
 			}
 			if a.line() != bb.line() {
